@@ -1150,6 +1150,18 @@ func callsCases(prop, tier string, seed int64) []callsCase {
 		kinds = rpcenv.Kinds
 	}
 	framed := func(k string) bool { return k == "tcp" || k == "unix" || k == "udp" }
+	if prop == "c12" && !th {
+		// the concurrent scenario is short: on the transports the quick tier otherwise leaves to the thorough one too
+		for _, k := range rpcenv.Kinds {
+			listed := false
+			for _, x := range kinds {
+				listed = listed || x == k
+			}
+			if !listed {
+				out = append(out, callsCase{Prop: prop, Kind: k, Sc: "concurrent", Seed: seed})
+			}
+		}
+	}
 	for _, k := range kinds {
 		switch prop {
 		case "c12":
